@@ -1,6 +1,35 @@
 package bt
 
-import "encoding/binary"
+import (
+	"encoding/binary"
+	"io"
+)
+
+// maxReadChunk bounds how much is allocated ahead of the data actually
+// delivered by a reader, so that a length prefix alone cannot exhaust memory.
+const maxReadChunk = 1 << 16
+
+// readBytes reads exactly n bytes from r, growing the buffer as data arrives.
+func readBytes(r io.Reader, n uint64) ([]byte, int, error) {
+	size := n
+	if size > maxReadChunk {
+		size = maxReadChunk
+	}
+	buf := make([]byte, 0, size)
+	for uint64(len(buf)) < n {
+		chunk := n - uint64(len(buf))
+		if chunk > maxReadChunk {
+			chunk = maxReadChunk
+		}
+		start := len(buf)
+		buf = append(buf, make([]byte, chunk)...)
+		m, err := io.ReadFull(r, buf[start:])
+		if err != nil {
+			return buf[:start+m], start + m, err
+		}
+	}
+	return buf, len(buf), nil
+}
 
 // ReverseBytes reverses the bytes (little endian/big endian).
 // This is used when computing merkle trees in Bitcoin, for example.
